@@ -84,19 +84,21 @@ impl Property for C09 {
         "C09"
     }
     fn rule(&self) -> &'static str {
-        "proptest: minimum delay in {0,1,10,3600,86400,2^63,u64::MAX}, deployment timestamp in {0,1,1.7e9}, history of <=12 (quick) / <=20 (thorough) steps: Advance (0, small, to last_success+delay-1/+0/+1, by delay-1/+0/+1) and Rotate (bypass?, operator authorised?, candidate valid / invalid / duplicate) with the proof from the newest set or, sometimes, from the previous one (retention 1); the harness owns the forward-moving ledger clock; the ledger sequence number advances with it (one ledger per 5 s, bounded). Oracle: clock model last = time of the last successful rotation (deployment counts); non-bypass succeeds iff now-last >= delay and the candidate is acceptable; bypass needs operator authorisation and ignores the delay; success restarts the clock, failure leaves it (snapshot equality + later behaviour). non-trivial = delay > 0 and a non-bypass attempt lands within +-1s of the boundary, or a bypass success is followed by a non-bypass attempt"
+        "proptest: minimum delay in {0,1,10,3600,86400,2^63,u64::MAX}, deployment timestamp in {0,1,1.7e9}, history of <=12 (quick) / <=20 (thorough) steps: Advance (0, small, to last_success+delay-1/+0/+1, by delay-1/+0/+1) and Rotate (bypass?, operator authorised?, candidate valid / invalid / duplicate) with the proof from the newest set or, sometimes, from the previous one (retention 1); the harness owns the forward-moving ledger clock; the ledger sequence number advances with it (one ledger per 5 s, bounded). Oracle: clock model last = time of the last successful rotation (deployment counts); non-bypass succeeds iff now-last >= delay and the candidate is acceptable; bypass needs operator authorisation and ignores the delay; success restarts the clock, failure leaves it (snapshot equality + later behaviour). non-trivial = delay > 0 and a non-bypass attempt lands within +-1s of the boundary, or a bypass success is followed by a non-bypass attempt; the gateway keeps 0, 1 or 5 previous signer sets (the rate limit must not depend on it)"
     }
     fn cases(&self, tier: Tier) -> u64 {
         tier.pick(20000, 300000)
     }
     fn strategy(&self, tier: Tier) -> BoxedStrategy<Case> {
         let n = tier.pick(12usize, 20usize);
-        (0u8..7, 0u8..3, proptest::collection::vec(step(), 1..=n)).prop_map(|(delay, deploy_ts, steps)| Case { delay, deploy_ts, steps }).boxed()
+        (0u8..21, 0u8..3, proptest::collection::vec(step(), 1..=n)).prop_map(|(delay, deploy_ts, steps)| Case { delay, deploy_ts, steps }).boxed()
     }
     fn fixed_cases(&self, _tier: Tier) -> Vec<Case> {
         let r = |bypass| Step::Rotate { bypass, operator_auth: true, cand: CandKind::Valid, by_previous_set: false };
         vec![
             Case { delay: 2, deploy_ts: 2, steps: vec![Step::Advance(Dt::ToBoundary(-1)), r(false), Step::Advance(Dt::ToBoundary(0)), r(false), r(false), Step::Advance(Dt::ToBoundary(1)), r(false)] },
+            Case { delay: 7 + 3, deploy_ts: 2, steps: vec![Step::Advance(Dt::Small(1)), r(false), Step::Advance(Dt::ToBoundary(0)), r(false), r(false)] },
+            Case { delay: 14 + 2, deploy_ts: 1, steps: vec![r(false), Step::Advance(Dt::ToBoundary(-1)), r(false), Step::Advance(Dt::ToBoundary(0)), r(false)] },
             Case { delay: 3, deploy_ts: 1, steps: vec![r(true), Step::Advance(Dt::ToBoundary(-1)), r(false), Step::Advance(Dt::Small(1)), r(false)] },
             Case { delay: 3, deploy_ts: 0, steps: vec![Step::Advance(Dt::Delay(0)), Step::Rotate { bypass: false, operator_auth: true, cand: CandKind::DuplicateOfLatest, by_previous_set: false }, r(false), r(false)] },
         ]
@@ -110,7 +112,11 @@ impl Property for C09 {
         let g = |k: u16| SetGen { seeds: vec![k * 2, k * 2 + 1], w: vec![WClass::One, WClass::Small(1)], t: TClass::Total };
         let mut latest = g(0).build(0);
         let mut previous: Option<BuiltSet> = None;
-        let gw = deploy_gateway(&env, [5; 32], d, 1, &[latest.clone()]).map_err(|e| format!("setup: {}", e))?;
+        // retention 0, 1 or 5 (derived from the two configuration bytes so that saved cases keep their format): the
+        // rate limit must not depend on how many old signer sets are kept
+        let retention: u64 = [1, 0, 5][((case.delay / 7) as usize + (case.deploy_ts / 3) as usize) % 3];
+        cx.label(&format!("retention_{}", retention));
+        let gw = deploy_gateway(&env, [5; 32], d, retention, &[latest.clone()]).map_err(|e| format!("setup: {}", e))?;
         let mut now = t0;
         let mut last = t0;
         let mut n_sets: u16 = 1;
@@ -175,7 +181,8 @@ impl Property for C09 {
                     if use_prev {
                         cx.label("proof_from_previous_set");
                     }
-                    let expect_ok = cand_ok && if *bypass { *operator_auth } else { delay_ok && !use_prev };
+                    // (with retention 0 the previous set is no longer honoured at all)
+                    let expect_ok = cand_ok && if *bypass { *operator_auth && (!use_prev || retention >= 1) } else { delay_ok && !use_prev };
                     if !*bypass && d > 0 {
                         let near = (elapsed as i128 - d as i128).abs() <= 1;
                         if near {
